@@ -55,6 +55,8 @@ RULE = ("integer batches (b 1..4, c, h, w small, groups dividing) for the normal
         "batch position, repeated evaluation, all/ random coil permutations. non-trivial = batch >= 2 or coils >= 2; distinct = "
         "distinct protocol line / (entry, size, batch, position, scale)")
 
+EXTRA_LEAN_MODULES = ["DirectVerif.Lemmas.C18Prims", "DirectVerif.Lemmas.C18Coil"]
+
 PENDING_FINDINGS = [
     # listed as `known:` by the lead; the oracle keeps yielding it
     "ConjGradNet/conv-sense-FR/tol1e-3:batch-dependence",
@@ -79,10 +81,42 @@ def prepare(ctx: Ctx):
         _THOROUGH, _ZOO = ctx.thorough, None
 
 
+def extra_entries():
+    """C18's own additions to the shared zoo: `MultiCoil` with the coil axis folded into the batch (`coil_to_batch=True`,
+    no network of the repository switches it on) and with the per-coil loop, around plain, normalised and batch-normalised
+    denoisers.  Inputs are (N, coil, H, W, 2) tensors."""
+    from direct.nn.conv.conv import Conv2d
+    from direct.nn.crossdomain.multicoil import MultiCoil
+    from direct.nn.resnet.resnet import ResNet
+    from direct.nn.unet.unet_2d import NormUnetModel2d
+
+    class ChannelsLast(torch.nn.Module):
+        """in the per-coil loop `MultiCoil` hands the model (N, H, W, C) slices (its callers permute beforehand)"""
+
+        def __init__(self, model):
+            super().__init__()
+            self.model = model
+
+        def forward(self, x):
+            return self.model(x.permute(0, 3, 1, 2)).permute(0, 2, 3, 1)
+
+    E = []
+    E.append(Z.Entry("MultiCoil/fold/conv", "multicoil", "mc", lambda: MultiCoil(Conv2d(2, 2, 4, n_convs=2), 1, True),
+                     "kspace", lambda m, i: m(i), coil_invariant=False, tags=("multicoil",)))
+    E.append(Z.Entry("MultiCoil/loop/conv", "multicoil", "mc", lambda: MultiCoil(ChannelsLast(Conv2d(2, 2, 4, n_convs=2)), 1, False),
+                     "kspace", lambda m, i: m(i), coil_invariant=False, tags=("multicoil",)))
+    E.append(Z.Entry("MultiCoil/fold/normunet", "multicoil", "mc", lambda: MultiCoil(NormUnetModel2d(2, 2, 2, 2, 0.0), 1, True),
+                     "kspace", lambda m, i: m(i), min_hw=Z.normunet_ok(2), coil_invariant=False, tags=("multicoil", "normunet")))
+    E.append(Z.Entry("MultiCoil/fold/resnet-bn", "multicoil", "mc",
+                     lambda: MultiCoil(ResNet(hidden_channels=4, in_channels=2, num_blocks=2, batchnorm=True), 1, True),
+                     "kspace", lambda m, i: m(i), coil_invariant=False, tags=("multicoil", "batchnorm")))
+    return E
+
+
 def zoo():
     global _ZOO
     if _ZOO is None:
-        _ZOO = [e for e in Z.zoo(thorough=_THOROUGH) if e.finding not in _UNUSABLE]
+        _ZOO = [e for e in Z.zoo(thorough=_THOROUGH) if e.finding not in _UNUSABLE] + extra_entries()
     return _ZOO
 
 
@@ -213,6 +247,158 @@ def correspondence(ctx: Ctx):
                                           "axis0" if any(a % rank == 0 for a in axes if -rank <= a < rank) else "inner")}
 
 
+    yield from _phase3_correspondence(ctx)
+
+
+class _Affine(torch.nn.Module):
+    """an exactly-integer stand-in for the model wrapped by MultiCoil: x -> a x + k, element-wise"""
+
+    def __init__(self, a, k):
+        super().__init__()
+        self.a, self.k = a, k
+
+    def forward(self, x):
+        return x * self.a + self.k
+
+
+def _persample(fn, rank, seed, dtype=torch.float64):
+    """does sample 1 of `fn(batch of 3)` equal `fn(sample 1 alone)`?  (exact, integer data)"""
+    g = torch.Generator().manual_seed(seed)
+    x = torch.randint(-5, 6, [3] + [2] * (rank - 1), generator=g).to(dtype)
+    try:
+        full, one = fn(x), fn(x[1:2])
+    except (IndexError, RuntimeError, TypeError, ValueError):
+        return 0
+    if isinstance(full, (tuple, list)):
+        full, one = full[0], one[0]
+    ok = full.dim() >= 1 and full.shape[0] == 3 and one.shape[0] == 1 and full.shape[1:] == one.shape[1:] and torch.equal(full[1], one[0])
+    return 1 if ok else 0
+
+
+def _phase3_correspondence(ctx: Ctx):
+    """the judgement `Prim.ok` against what torch does; `permuteNT`, `batchedAlong`, the `batch * coil` fold against torch"""
+    from direct.nn.crossdomain.multicoil import MultiCoil
+
+    rng = ctx.rng
+    flat = lambda t: [int(v) for v in t.reshape(-1).tolist()]  # noqa: E731
+    for i in range(ctx.budget(90, 700)):
+        rank = rng.randint(2, 5)
+        family = rng.choice([0, 0, 1, 1, 1, 2, 2, 4])
+        seed = rng.randrange(1 << 16)
+        axis = lambda: rng.choice([a for a in range(-(rank - 1), rank)])  # noqa: E731
+        sink = 0
+        if family == 0:
+            form = rng.choice([0, 0, 0, 1, 3])
+            if form == 0:
+                k = rng.randint(1, 2)
+                args = rng.sample(range(rank), k)
+                args = [a - rank if (rng.random() < 0.4 and a > 0) else a for a in args]
+                opn = rng.choice(["sum", "mean", "amax"])
+                fn = lambda x, args=args, opn=opn: getattr(x, opn)(dim=args)  # noqa: E731
+            elif form == 1:
+                args, sink = [], rng.choice([0, 1])
+                if sink:
+                    def fn(x):
+                        if x.abs().max() > 3:       # the value only decides whether a warning is issued
+                            pass
+                        return x * 2
+                else:
+                    fn = lambda x: x - x.mean()  # noqa: E731
+            else:
+                k = rng.randint(0, rank - 2)
+                args = [k]
+                fn = lambda x, k=k: x.sum(dim=torch.arange(k, x.ndim - 1).tolist())  # noqa: E731
+            bucket = f"primok/reduce/form{form}"
+        elif family == 1:
+            opn = rng.choice(["cat", "stack", "flip", "cumsum", "select", "unsqueeze", "softmax", "split", "squeeze-all", "narrow", "roll"])
+            form, args = 0, [axis()]
+            a = args[0]
+            if opn == "squeeze-all":
+                form, args = 1, []
+                fn = lambda x: x.squeeze()  # noqa: E731
+            elif opn == "cat":
+                fn = lambda x, a=a: torch.cat([x, x + 1], dim=a)  # noqa: E731
+            elif opn == "stack":
+                fn = lambda x, a=a: torch.stack([x, x + 1], dim=a)  # noqa: E731
+            elif opn == "flip":
+                fn = lambda x, a=a: x.flip(a)  # noqa: E731
+            elif opn == "roll":
+                fn = lambda x, a=a: x.roll(1, a)  # noqa: E731
+            elif opn == "cumsum":
+                fn = lambda x, a=a: x.cumsum(a)  # noqa: E731
+            elif opn == "select":
+                fn = lambda x, a=a: x.select(a, 0)  # noqa: E731
+            elif opn == "narrow":
+                fn = lambda x, a=a: x.narrow(a, 0, 1)  # noqa: E731
+            elif opn == "unsqueeze":
+                fn = lambda x, a=a: x.unsqueeze(a)  # noqa: E731
+            elif opn == "split":
+                fn = lambda x, a=a: torch.split(x, 1, a)[0]  # noqa: E731
+            else:
+                fn = lambda x, a=a: torch.softmax(x, a).mul(1 << 20).round()  # noqa: E731
+            bucket = f"primok/along/{opn}"
+        elif family == 2:
+            form = rng.choice([0, 0, 1])
+            if form == 0:
+                args = list(range(rank))
+                rng.shuffle(args)
+                if rng.random() < 0.5:
+                    args.remove(0)
+                    args = [0] + args
+                fn = lambda x, args=args: x.permute(*args)  # noqa: E731
+            else:
+                a, b = rng.sample(range(rank), 2)
+                args = [a - rank if (rng.random() < 0.3 and a > 0) else a, b]
+                fn = lambda x, args=args: x.transpose(args[0], args[1])  # noqa: E731
+            bucket = f"primok/permute/form{form}"
+        else:
+            form, args = 0, [axis()]
+            fn = lambda x, a=args[0]: x.flatten(a)  # noqa: E731
+            bucket = "primok/flatten"
+        yield {"line": line("primok", [family, form, sink], args), "nontrivial": True, "bucket": bucket,
+               "impl": (lambda fn=fn, rank=rank, seed=seed: "ok " + str(_persample(fn, rank, seed)))}
+    for _ in range(ctx.budget(40, 300)):
+        rank = rng.randint(2, 4)
+        shape = [rng.randint(1, 3) for _ in range(rank)]
+        perm = list(range(rank))
+        rng.shuffle(perm)
+        x = _int_tensor(rng, shape, -9, 9)
+        yield {"line": line("permute", shape, perm, flat(x)), "nontrivial": perm != sorted(perm), "bucket": "permute/" + ("batch-first" if perm[0] == 0 else "batch-moved"),
+               "impl": _guard(lambda x=x, perm=perm: "ok " + ints(flat(x.permute(*perm).contiguous())))}
+    for _ in range(ctx.budget(40, 300)):
+        rank = rng.randint(2, 4)
+        shape = [rng.randint(2, 3) for _ in range(rank)]
+        d, code = rng.randrange(rank), rng.randrange(4)
+        x = _int_tensor(rng, shape, -9, 9)
+
+        def impl(x=x, d=d, code=code):
+            r = x.sum(d) if code == 0 else x.flip(d) if code == 1 else x.select(d, 0) if code == 2 else x.cumsum(d)
+            return "ok " + ints(flat(r.contiguous()))
+        yield {"line": line("along", [code, d], shape, flat(x)), "nontrivial": True, "impl": _guard(impl),
+               "bucket": "along/" + ["sum", "flip", "select", "cumsum"][code] + ("/axis0" if d == 0 else "/inner")}
+    # ---- MultiCoil: fold coils into the batch / loop over the coils — the same integer answer, sample by sample
+    for _ in range(ctx.budget(40, 300)):
+        b, c, h, w, ch = rng.randint(1, 3), rng.randint(1, 4), rng.randint(1, 2), rng.randint(1, 2), rng.choice([1, 2])
+        a, k = rng.randint(-3, 3), rng.randint(-4, 4)
+        x = _int_tensor(rng, [b, c, h, w, ch], -6, 6).float()
+        fold = rng.random() < 0.7
+
+        def impl(x=x, a=a, k=k, fold=fold):
+            m = MultiCoil(_Affine(a, k), coil_dim=1, coil_to_batch=fold).eval()
+            x0 = x.clone()
+            out = m(x)
+            assert torch.equal(x, x0), "MultiCoil modified its input"
+            assert out.shape == x.shape
+            return "ok " + ints(flat(out))
+        yield {"line": line("mergemap", [b, c, h * w * ch], [a, k], flat(x)), "nontrivial": b >= 2 and c >= 2, "impl": _guard(impl),
+               "bucket": "multicoil/" + ("fold" if fold else "loop") + ("/b1" if b == 1 else "/c1" if c == 1 else "/batched")}
+    for _ in range(ctx.budget(20, 150)):
+        b, c = rng.randint(1, 4), rng.randint(1, 4)
+        y = _int_tensor(rng, [b * c], -20, 20)
+        yield {"line": line("unmerge", [b, c], flat(y)), "nontrivial": b >= 2 and c >= 2, "bucket": "unmerge",
+               "impl": _guard(lambda y=y, b=b, c=c: "ok " + ints(flat(y.reshape(b, c))) + " | " + ints(flat(torch.stack(y.split(b), dim=1))))}
+
+
 # ------------------------------------------------------------------------------------------------------------------
 def _rel(a, b):
     s = max(float(a.abs().max()), 1e-30)
@@ -229,6 +415,9 @@ def _inputs(e, n, h, w, seed, scale=1.0, coils=3):
     if e.kind == "den3d":
         g = torch.Generator().manual_seed(seed)
         return torch.randn((n, e.in_ch, 3, h, w), generator=g) * scale
+    if e.kind == "mc":
+        g = torch.Generator().manual_seed(seed)
+        return torch.randn((n, coils, h, w, 2), generator=g) * scale
     inp = Z.recon_inputs(n, coils, h, w, seed=seed, scale=scale, slices=3 if e.kind == "recon3d" else None)
     inp["scaling_factor"] = torch.tensor([0.6 + 0.37 * ((seed + i) % 5) for i in range(n)])
     return inp
@@ -242,6 +431,35 @@ def _cat(e, items):
 
 def _run(e, m, inp):
     return Z.run_entry(e, m, (inp, None) if e.kind == "gru" else inp)
+
+
+def _run_grad(e, m, inp):
+    """the same call with autograd recording (the parameters require grad): evaluation must not depend on the grad mode"""
+    with torch.enable_grad():
+        if e.kind in ("den2d", "den3d"):
+            out = m(inp)
+        elif e.kind == "gru":
+            out = m(inp, None)[0]
+        else:
+            out = e.call(m, inp)
+    return out.detach()
+
+
+def _noncontiguous(inp):
+    """the same values behind different strides (a transposed copy viewed back)"""
+    def nc(t):
+        if not torch.is_tensor(t) or t.dim() < 3:
+            return t
+        return t.transpose(-2, -3).contiguous().transpose(-2, -3)
+    if isinstance(inp, dict):
+        return {k: nc(v) for k, v in inp.items()}
+    return nc(inp)
+
+
+def _permute_coils(e, x, perm):
+    if isinstance(x, dict):
+        return Z.permute_coils(x, perm)
+    return x[:, perm]
 
 
 def _size_for(e, rng, deep):
@@ -279,12 +497,17 @@ def _check_entry(ctx, e, deep):
         if not torch.equal(single, again):
             yield Violation(f"{e.name}:nonrepeatable", f"{e.name}: repeated evaluation of the same input differs (max rel {_rel(single, again):.2e})",
                             {"op": "repeat", "entry": e.name, "h": h, "w": w, "seed": seed})
-        # (a) batch of k vs alone
-        configs = [(k, pos, sc) for k in ((2, 3, 4) if deep else (2, 3)) for pos in range(k) for sc in (1.0, 1e4, 1e-4)]
+        yield from _history_checks(ctx, e, m, x, single, h, w, seed, coils, deep)
+        # (a) batch of k vs alone; companions of ordinary, extreme, zero magnitude, or copies of the sample itself
+        configs = [(k, pos, sc) for k in ((2, 3, 4) if deep else (2, 3)) for pos in range(k) for sc in (1.0, 1e4, 1e-4, 0.0, "dup")]
         if not deep:
-            configs = rng.sample(configs, 5) + [(2, 1, 1e4)]
+            configs = rng.sample([c for c in configs if c[2] in (1.0, 1e4, 1e-4)], 4) + [(2, 1, 1e4), (2, rng.randrange(2), 0.0), (3, rng.randrange(3), "dup")]
         for k, pos, sc in configs:
-            comps = [_inputs(e, 1, h, w, seed + 10 + j, scale=sc, coils=coils) for j in range(k - 1)]
+            if sc == "dup":
+                comps = [x] * (k - 1)
+                sc = -1.0
+            else:
+                comps = [_inputs(e, 1, h, w, seed + 10 + j, scale=sc, coils=coils) for j in range(k - 1)]
             items = comps[:pos] + [x] + comps[pos:]
             ctx.count((e.name, "batch", h, w, k, pos, sc), True,
                       sample={"entry": e.name, "size": [h, w], "batch": k, "position": pos, "companion_scale": sc},
@@ -303,18 +526,65 @@ def _check_entry(ctx, e, deep):
                                 f"{e.name}: output of a sample differs by {r:.2e} (relative) between batch of {k} (position {pos}, "
                                 f"companions x{sc:g}) and alone; tolerance {e.tol:g}", rep)
         # (c) coil permutation
-        if e.kind in ("recon", "recon3d"):
+        if e.kind in ("recon", "recon3d", "mc"):
             perms = list(itertools.permutations(range(coils))) if deep else [(2, 0, 1), (1, 0, 2)]
             for perm in perms[1:] if deep else perms:
                 perm = list(perm)
                 ctx.count((e.name, "perm", h, w, tuple(perm)), True, bucket="oracle/coil-perm/" + ("image" if e.coil_invariant else "kspace"))
-                out = _run(e, m, Z.permute_coils(x, perm))
+                out = _run(e, m, _permute_coils(e, x, perm))
                 ref = single if e.coil_invariant else single[:, perm]
                 r = _rel(ref, out)
                 if not (r <= max(e.tol, _PERM_TOL)):
                     yield Violation(f"{e.name}:coil-order",
                                     f"{e.name}: permuting the coils of k-space and maps together changes the reconstruction by {r:.2e}",
                                     {"op": "perm", "entry": e.name, "h": h, "w": w, "seed": seed, "perm": perm, "observed_rel_diff": r})
+
+
+def _history_checks(ctx, e, m, x, single, h, w, seed, coils, deep):
+    """call histories and evaluation contexts that must not change the answer for `x` (bit-identical unless a tolerance is
+    stated): train() → eval() toggles, autograd recording on, a non-contiguous copy of the input, a batch evaluated in a
+    different order, a second instance of the same model interleaved with the first"""
+    rng = ctx.rng
+    rep = {"entry": e.name, "h": h, "w": w, "seed": seed}
+    which = ["toggle", "grad", "noncontig", "fresh-instance"] + (["order"] if deep else [])
+    for kind in which:
+        ctx.count((e.name, kind, h, w), True, bucket=f"oracle/history/{kind}")
+        try:
+            if kind == "toggle":
+                m.train()
+                m.eval()
+                out, exact = _run(e, m, x), True
+            elif kind == "grad":
+                out, exact = _run_grad(e, m, x), True
+            elif kind == "noncontig":
+                out, exact = _run(e, m, _noncontiguous(x)), False
+            elif kind == "fresh-instance":
+                # another instance (same seed, hence the same weights), built after the first one has been used: class-level
+                # or module-level state written by the first instance would show here; then the first one again
+                m2 = e.model()
+                out, exact = _run(e, m2, x), True
+                if deep and torch.equal(out, single):
+                    _run(e, m2, _inputs(e, 2, h, w, seed + 3, scale=7.0, coils=coils))
+                    out = _run(e, m, x)
+            else:
+                items = [_inputs(e, 1, h, w, seed + 20 + j, coils=coils) for j in range(2)] + [x]
+                a = _run(e, m, _cat(e, items))
+                b = _run(e, m, _cat(e, [items[2], items[0], items[1]]))
+                out, exact = b[0:1], False
+                if _rel(a[2:3], out) > e.tol or _rel(a[0:1], b[1:2]) > e.tol:
+                    out = b[0:1] + float("nan")
+        except Exception as ex:  # noqa: BLE001
+            yield Violation(f"{e.name}:raises-{err_name(ex)}", f"{e.name} fails in the `{kind}` evaluation although the plain one works: {str(ex)[:150]}",
+                            {"op": "history", "kind": kind, **rep})
+            continue
+        bad = (not torch.equal(out, single)) if exact else not (_rel(single, out) <= e.tol)
+        if bad and exact and _rel(single, out) <= 0.0:
+            bad = False                      # -0.0 vs +0.0
+        if bad:
+            yield Violation(f"{e.name}:{kind}-dependence",
+                            f"{e.name}: the output for the same input differs (max rel {_rel(single, out):.2e}) under `{kind}` "
+                            "(train→eval toggle / autograd on / non-contiguous input / batch order / second instance)",
+                            {"op": "history", "kind": kind, "observed_rel_diff": _rel(single, out), **rep})
 
 
 def _stateful_modules(ctx, e):
@@ -328,6 +598,12 @@ def _stateful_modules(ctx, e):
     if left_on:
         yield Violation(f"{e.name}:train-flag-after-eval", f"{e.name}: modules still in training mode after eval(): {left_on[:5]}",
                         {"op": "evalflags", "entry": e.name, "modules": left_on[:20]})
+    nostats = [n for n, sub in m.named_modules() if isinstance(sub, nn.modules.batchnorm._BatchNorm)
+               and (not sub.track_running_stats or sub.running_mean is None)]
+    if nostats:
+        yield Violation(f"{e.name}:batchnorm-without-running-stats",
+                        f"{e.name}: batch-norm layers without running statistics use the statistics of the batch in eval mode: {nostats[:5]}",
+                        {"op": "evalflags", "entry": e.name, "modules": nostats[:20]})
     stoch = [n for n, sub in m.named_modules()
              if isinstance(sub, (nn.Dropout, nn.Dropout2d, nn.Dropout3d, nn.AlphaDropout)) and sub.p > 0]
     if "dropout" in e.tags:
@@ -338,8 +614,13 @@ def _stateful_modules(ctx, e):
 
 
 def oracle(ctx: Ctx, deep: bool = False):
+    search = deep and not ctx.thorough          # an obligation broke: the failing-input search also covers the engine entries
     deep = deep or ctx.thorough
-    for e in zoo():
+    entries = zoo()
+    if search:
+        have = {e.name for e in entries}
+        entries = entries + [e for e in Z.zoo(thorough=True) if e.name not in have and e.finding not in _UNUSABLE]
+    for e in entries:
         yield from _stateful_modules(ctx, e)
         yield from _check_entry(ctx, e, deep)
     # the normalisation functions themselves on float batches: statistics and normalised sample identical alone / batched,
@@ -369,9 +650,9 @@ def oracle(ctx: Ctx, deep: bool = False):
 
 def replay(rep: dict) -> bool:
     op = rep.get("op")
-    if op not in ("batch", "single", "repeat", "perm"):
+    if op not in ("batch", "single", "repeat", "perm", "history"):
         return True
-    e = next((x for x in Z.zoo(thorough=True) if x.name == rep["entry"]), None)
+    e = next((x for x in Z.zoo(thorough=True) + extra_entries() if x.name == rep["entry"]), None)
     if e is None:
         return True
     m = model_of(e)
@@ -383,12 +664,19 @@ def replay(rep: dict) -> bool:
             return False
         if op == "repeat":
             return not torch.equal(single, _run(e, m, x))
+        if op == "history":
+            class _C:                       # a minimal ctx for the generator
+                rng = __import__("random").Random(0)
+                def count(self, *a, **k):
+                    pass
+            return any(v.key.endswith(rep["kind"] + "-dependence") or "raises" in v.key
+                       for v in _history_checks(_C(), e, m, x, single, h, w, seed, 3, True))
         if op == "perm":
-            out = _run(e, m, Z.permute_coils(x, rep["perm"]))
+            out = _run(e, m, _permute_coils(e, x, rep["perm"]))
             ref = single if e.coil_invariant else single[:, rep["perm"]]
             return _rel(ref, out) > max(e.tol, _PERM_TOL)
         k, pos, sc = rep["batch"], rep["position"], rep["companion_scale"]
-        comps = [_inputs(e, 1, h, w, seed + 10 + j, scale=sc) for j in range(k - 1)]
+        comps = [x] * (k - 1) if sc < 0 else [_inputs(e, 1, h, w, seed + 10 + j, scale=sc) for j in range(k - 1)]
         out = _run(e, m, _cat(e, comps[:pos] + [x] + comps[pos:]))[pos:pos + 1]
         return not (_rel(single, out) <= e.tol)
     except Exception:  # noqa: BLE001
